@@ -279,18 +279,101 @@ def _quiet_worker():
         pass
 
 
-def pmap(fn, items, timeout=10.0, procs=None, chunksize=None):
-    """Map a module-level function over items in forked workers, each call under
-    an alarm.  Returns list of (status, value) with status ok|timeout|exc."""
+def _pmap_worker(fn, items, idxs, conn, tmo):
+    _quiet_worker()
+    try:
+        import resource
+        resource.setrlimit(resource.RLIMIT_AS, (8 << 30, 8 << 30))   # a runaway case cannot eat the machine
+    except Exception:  # noqa: BLE001
+        pass
+    batch = []
+    last = time.time()
+    for i in idxs:
+        batch.append((i, _guarded((fn, items[i], tmo))))
+        if len(batch) >= 64 or time.time() - last > 0.5:
+            try:
+                conn.send(batch)
+            except BaseException:  # noqa: BLE001  (unpicklable result, MemoryError, ...)
+                try:
+                    conn.send([(j, ("exc", "worker could not deliver the result")) for j, _ in batch])
+                except BaseException:  # noqa: BLE001
+                    return
+            batch = []
+            last = time.time()
+    try:
+        if batch:
+            conn.send(batch)
+        conn.send(None)
+    except BaseException:  # noqa: BLE001
+        pass
+
+
+def pmap(fn, items, timeout=10.0, procs=None, chunksize=None, hard=None):
+    """Map a module-level function over items in forked workers.  Each call runs under a
+    repeating alarm (soft timeout, raises a BaseException inside the worker); a call that
+    blocks inside C code, where the alarm is not delivered, is ended by killing its worker
+    after `hard` seconds (default 3*timeout + 15) and the worker's remaining items go to a
+    fresh process.  Returns a list of (status, value), status ok | timeout | exc."""
+    from multiprocessing.connection import wait
     items = list(items)
-    if not items:
+    n = len(items)
+    if not n:
         return []
-    procs = procs or NPROC
-    if procs == 1 or len(items) < 4:
+    procs = max(1, min(procs or NPROC, n))
+    hard = hard or (3 * timeout + 15)
+    if procs == 1 and n < 4:
         return [_guarded((fn, it, timeout)) for it in items]
-    chunksize = chunksize or max(1, min(64, len(items) // (procs * 4) or 1))
-    with multiprocessing.get_context("fork").Pool(procs, initializer=_quiet_worker, maxtasksperchild=2000) as pool:
-        return pool.map(_guarded, [(fn, it, timeout) for it in items], chunksize=chunksize)
+    mp = multiprocessing.get_context("fork")
+    out = [None] * n
+    live = {}
+
+    def spawn(idxs):
+        if not idxs:
+            return
+        r, w = mp.Pipe(duplex=False)
+        pr = mp.Process(target=_pmap_worker, args=(fn, items, idxs, w, timeout), daemon=True)
+        pr.start()
+        w.close()
+        live[r] = {"proc": pr, "idxs": idxs, "pos": 0, "t": time.time()}
+
+    for k in range(procs):
+        spawn(list(range(k, n, procs)))
+    while live:
+        ready = wait(list(live), timeout=1.0)
+        now = time.time()
+        for r in ready:
+            st = live[r]
+            try:
+                msg = r.recv()
+            except (EOFError, OSError):
+                msg = "dead"
+            if msg is None or msg == "dead":
+                st["proc"].join(timeout=1)
+                if st["proc"].is_alive():
+                    st["proc"].kill()
+                rest = st["idxs"][st["pos"]:]
+                del live[r]
+                r.close()
+                if msg == "dead" and rest:
+                    out[rest[0]] = ("exc", "worker died")
+                    spawn(rest[1:])
+                continue
+            for i, val in msg:
+                out[i] = val
+            st["pos"] += len(msg)
+            st["t"] = now
+        for r in list(live):
+            st = live[r]
+            if now - st["t"] > hard:
+                st["proc"].kill()
+                st["proc"].join(timeout=2)
+                rest = st["idxs"][st["pos"]:]
+                del live[r]
+                r.close()
+                if rest:
+                    out[rest[0]] = ("timeout", None)
+                    spawn(rest[1:])
+    return [o if o is not None else ("exc", "lost") for o in out]
 
 
 # ----------------------------------------------------------------------------
